@@ -67,8 +67,15 @@ def generate(rng, tier='quick', **kw):
   for name in extra:
     if rng.random() < 0.5:
       topic_err[name] = rng.choice([3, 5])
+  directives = []
+  if rng.random() < 0.3:
+    # back-pressure on a broker connection: one write is parked half-way while
+    # further Puts arrive
+    for _ in range(rng.randint(1, 2)):
+      directives.append({'ep': None, 'conn': rng.choice([0, 0, 1]), 'op': 'send', 'index': None,
+                         'nth': rng.randint(1, 6), 'kind': 'block', 'arg': rng.choice([0.02, 0.1, 0.3])})
   return {'world': 'w_kafka', 'brokers': n_brokers, 'topics': topics, 'ops': ops, 'meta_extra': extra,
-          'meta_topic_err': topic_err,
+          'meta_topic_err': topic_err, 'directives': directives,
           'bootstrap': sorted(rng.sample(range(n_brokers), rng.randint(1, n_brokers))),
           'net': {'chunk': rng.choice(['none', 'some', 'bytes']), 'jitter': rng.choice([0.0, 0.0005])},
           'unknown_topic': rng.random() < 0.1}
@@ -83,7 +90,7 @@ def run(scn):
   import struct
 
   loop = SimLoop.INSTANCE
-  net = install_net(scn['seed'], scn.get('net', {}))
+  net = install_net(scn['seed'], dict(scn.get('net', {}), directives=scn.get('directives', [])))
   # scales passes broker host names around as bytes on Python 3; the resolver accepts both
   sm = net.socket_module()
   import scales.scales_socket as ss
@@ -316,7 +323,9 @@ def run(scn):
         if getattr(inner, 'error_code', None) not in [r[2] for r in replies if r[2]]:
           REC.violation('C15', 'wrong_error_code', 'Put %s failed with KafkaError %r; broker sent error %r' % (
             c.id, getattr(inner, 'error_code', None), err))
-      elif name == 'TimeoutError' and not reqs:
+      elif name == 'TimeoutError' and not reqs and not any(d.fired for d in net.directives):
+        # (a Put that expires while it is queued behind a write parked by
+        # back-pressure is legitimately never written)
         REC.violation('C15', 'put_not_sent', 'Put %s timed out and no broker ever received its request' % c.id)
       elif name in ('error', 'TypeError', 'ValueError', 'KeyError', 'AttributeError', 'IndexError',
                     'UnicodeDecodeError', 'NotImplementedError'):
